@@ -70,16 +70,36 @@ def memWrite (r : RtlSt) : Option (BitVec 19 × Word) :=
 
 /-! ### Abstraction to the ISA state -/
 
-/-- Words `0 .. 199999` of `memory_q` as the ISA's `mem[200000]`. -/
-def absMem (m : BitVec 19 → Word) : Mem :=
+/-- Words `0 .. 199999` of `memory_q` as the ISA's `mem[200000]`, executable form. -/
+def absMemImpl (m : BitVec 19 → Word) : Mem :=
   ⟨Array.ofFn (n := memWords) (fun i => m (BitVec.ofNat 19 i.val)), by simp⟩
+
+theorem absMem_exists (m : BitVec 19 → Word) :
+    ∃ M : Mem, ∀ i, i < memWords → M.read i = m (BitVec.ofNat 19 i) :=
+  ⟨absMemImpl m, by intro i h; simp [absMemImpl, Mem.read, Array.getD, h]⟩
+
+/-- Words `0 .. 199999` of `memory_q` as the ISA's `mem[200000]`.  Characterised by
+    `absMem_read` (and unique by `Mem.ext'`, see `absMem_eq_impl`); introduced through
+    `Classical.choose` only so that neither the elaborator nor the kernel ever tries to unfold a
+    200000-element `Array.ofFn` during a definitional-equality check. -/
+noncomputable def absMem (m : BitVec 19 → Word) : Mem := Classical.choose (absMem_exists m)
+
+theorem absMem_read (m : BitVec 19 → Word) (i : Nat) (h : i < memWords) :
+    (absMem m).read i = m (BitVec.ofNat 19 i) :=
+  Classical.choose_spec (absMem_exists m) i h
+
+theorem absMem_eq_impl (m : BitVec 19 → Word) : absMem m = absMemImpl m := by
+  apply Mem.ext'
+  intro i h
+  rw [absMem_read m i h]
+  simp [absMemImpl, Mem.read, Array.getD, h]
 
 /-- Registers: `pc_q` zero-extended from 21 bits, `areg_q`, `breg_q`, `oreg_q` as they are. -/
 def absRegs (r : RtlSt) : Isa.RegFile :=
   { pc := r.pc.zeroExtend 32, a := r.areg, b := r.breg, o := r.oreg }
 
 /-- `abs : RtlSt → Isa.St`. -/
-def abs (r : RtlSt) : Isa.St :=
+noncomputable def abs (r : RtlSt) : Isa.St :=
   { pc := r.pc.zeroExtend 32, a := r.areg, b := r.breg, o := r.oreg, mem := absMem r.mem }
 
 /-- The reachable-state invariant: only PFIX/NFIX make `oreg` non-zero and both shift left by 4.
@@ -151,15 +171,18 @@ inductive SysResult where
   | running (r : RtlSt) (io : Isa.IOSt)
   | exited (code : Word) (r : RtlSt) (io : Isa.IOSt)
 
-/-- One clock of the system: if the design requests a system call the bench services it on the
-    current memory (the processor's own clock edge does not touch memory in that cycle), then
-    the clock edge happens. -/
+/-- One clock of the system: the clock edge happens; if the design was requesting a system call
+    in that cycle the bench services it on the memory (the processor's own SVC cycle stores
+    nothing, so this is the memory before the edge as well).  hextb.cpp services the call
+    between the two edges that surround the SVC byte's cycle; the two orders differ only if READ
+    overwrites the very word that holds the SVC byte being executed. -/
 def sysCycle (tb : Tb) (r : RtlSt) (io : Isa.IOSt) : SysResult :=
+  let r' := cycle r
   if sysValid r = 1#1 then
-    match tb (sysCall r) r.mem io with
-    | .cont m io' => .running (cycle { r with u_memory__memory_q := m }) io'
-    | .exit c io' => .exited c (cycle r) io'
-  else .running (cycle r) io
+    match tb (sysCall r) r'.mem io with
+    | .cont m io' => .running { r' with u_memory__memory_q := m } io'
+    | .exit c io' => .exited c r' io'
+  else .running r' io
 
 /-- `n` clocks of the system (stops at EXIT). -/
 def sysRun (tb : Tb) : Nat → RtlSt → Isa.IOSt → SysResult
@@ -169,14 +192,44 @@ def sysRun (tb : Tb) : Nat → RtlSt → Isa.IOSt → SysResult
     | .running r' io' => sysRun tb n r' io'
     | .exited c r' io' => .exited c r' io'
 
-/-- `n` instructions of the ISA (stops at exit; `none` when a step is undefined). -/
+/-- ISA state in range for the byte it is about to execute (the ISA-side reading of
+    `DefinedByte ∧ InRange`). -/
+def IsaInRange (s : Isa.St) : Prop :=
+  match Isa.fetch s.mem s.pc with
+  | some f => Isa.Defined s.o f ∧ InRangeRegs s.regs f
+  | none => False
+
+instance (s : Isa.St) : Decidable (IsaInRange s) := by
+  unfold IsaInRange
+  split <;> infer_instance
+
+/-- `n` instructions of the ISA, every one of them defined and in range (`none` otherwise);
+    stops at exit. -/
 def isaRun : Nat → Isa.St → Isa.IOSt → Option Isa.Outcome
   | 0, s, io => some (.running s io)
   | n + 1, s, io =>
-    match Isa.step s io with
-    | .running s' io' => isaRun n s' io'
-    | .exited c s' io' => some (.exited c s' io')
-    | .undef _ => none
+    if IsaInRange s then
+      match Isa.step s io with
+      | .running s' io' => isaRun n s' io'
+      | .exited c s' io' => some (.exited c s' io')
+      | .undef _ => none
+    else none
+
+/-- What a system result looks like through `abs`. -/
+noncomputable def absResult : SysResult → Isa.Outcome
+  | .running r io => .running (abs r) io
+  | .exited c r io => .exited c (abs r) io
+
+/-- The bench does what `Isa.svc` does, seen through `absMem`: whenever the ISA's `svc` is
+    defined on a state with `areg = a` and memory `absMem m`, the bench called with `a[1:0]` on
+    `m` produces the same I/O, the same exit value, and a memory that abstracts to the ISA's. -/
+def TbRefines (tb : Tb) : Prop :=
+  ∀ (m : BitVec 19 → Word) (io : Isa.IOSt) (s : Isa.St), s.mem = absMem m →
+    match Isa.svc s io with
+    | .running s' io' => ∃ m', tb (s.a.setWidth 2) m io = .cont m' io' ∧
+                          s' = { s with o := 0#32, mem := absMem m' }
+    | .exited c s' io' => tb (s.a.setWidth 2) m io = .exit c io' ∧ s' = { s with o := 0#32 }
+    | .undef _ => True
 
 /-- A reference test bench: `handleSyscall` of hextb.cpp over `memory_q`
     (`sp = memory_q[1]`; EXIT returns `memory_q[sp+2]`; WRITE outputs `memory_q[sp+2]` to stream
